@@ -205,7 +205,7 @@ func runC06(c *vf.Case) {
 		if small {
 			n = []int{0, 1, 2, 5, 30}[r.Intn(5)]
 		} else {
-			classes := []int{0, 1, 125, 126, 127, 500}
+			classes := []int{0, 1, 125, 126, 127, 500, 4090 + r.Intn(10)} // incl. sizes around the initial 4096-byte read buffer
 			if maxSize >= 70000 {
 				classes = append(classes, 65535, 65536)
 			}
